@@ -278,6 +278,35 @@ def r4_val_sign(ctx, rule="C17.R4"):
             if not neg:
                 neg, pos = [t["else"]], pos
             sign_sw[b] = (neg[0], pos[0])
+    hops = 0
+    while not sign_sw and hops < 2:
+        # the magnitude and the flag are handed to a private helper of the same file that builds the result:
+        # the helper is judged, with the parameter that receives the flag as the flag
+        nxt = None
+        for b, blk in enumerate(body.blocks):
+            t = blk["t"]
+            if t["k"] != "call" or body.is_cleanup(b):
+                continue
+            g = prog.fns.get(t.get("res") or mir.callee_of(t))
+            if g is None or g.file != f.file or g.body is None or g.id == f.id:
+                continue
+            for k, a in enumerate(t["args"]):
+                if is_flag(a, blk):
+                    nxt = (g, k + 1)
+        if nxt is None:
+            break
+        f, flag = nxt
+        body = f.body
+        pv = mir.Prov(body)
+        for b, blk in enumerate(body.blocks):
+            t = blk["t"]
+            if t["k"] == "switch" and is_flag(t["o"], blk):
+                neg = [tg for v, tg in t["ts"] if v == 0]
+                pos = [tg for v, tg in t["ts"] if v != 0] or [t["else"]]
+                if not neg:
+                    neg, pos = [t["else"]], pos
+                sign_sw[b] = (neg[0], pos[0])
+        hops += 1
     if not sign_sw:
         raise CheckError("%s: val() never tests its sign flag" % rule)
     negate_blocks = {b for b, t in body.calls() if (t.get("cpath") or "").split("::")[-1] == "negate"}
